@@ -282,11 +282,22 @@ func c19Value(u *U, v cty.Value) {
 		if fmt.Sprint(wantMarks) != fmt.Sprint(gotMarks) {
 			u.Violation("marks.paths-differ", shape, fmt.Sprintf("UnmarkDeepWithPaths(%s) reported %v, the marked members are %v", desc, gotMarks, wantMarks))
 		}
+		snap := pvmSnapshot(pvm)
 		back := un.MarkWithPaths(pvm)
 		if !rawEq(back, v) {
 			u.Violation("marks.roundtrip-differs", shape, fmt.Sprintf("MarkWithPaths(UnmarkDeepWithPaths(%s)) = %s", desc, goStr(back)))
 		}
+		// the path/mark list is the caller's: re-applying it must not consume or reorder it,
+		// and a second application gives the same value
+		if after := pvmSnapshot(pvm); after != snap {
+			u.Violation("marks.paths-argument-modified", shape, fmt.Sprintf("MarkWithPaths changed the caller's []PathValueMarks from %s to %s (value %s)", snap, after, desc))
+		}
+		if back2 := un.MarkWithPaths(pvm); !rawEq(back2, v) {
+			u.Violation("marks.roundtrip-differs", shape, fmt.Sprintf("applying the same []PathValueMarks a second time gives %s, the original is %s", goStr(back2), desc))
+		}
 	}()
+	// 6. pre-order (Enter) / post-order (Exit) transformer
+	c19Transformer(u, v, got, shape, desc)
 	if u.WantSample() {
 		u.Sample(map[string]interface{}{"value": desc, "visits": len(got)})
 	}
@@ -780,4 +791,183 @@ func runC19(c *Ctx) {
 	}
 	c.Note("pathset_bfs_depth", fmtInt(depth))
 	exploreE2(c, &pathSys{paths: c19PathAlphabet()}, depth, "pathset.")
+}
+
+func pvmSnapshot(pvm []cty.PathValueMarks) string {
+	var parts []string
+	for _, pm := range pvm {
+		ms := map[interface{}]bool{}
+		for m := range pm.Marks {
+			ms[m] = true
+		}
+		parts = append(parts, pathStr(pm.Path)+"="+marksStr(ms))
+	}
+	return "[" + strings.Join(parts, "; ") + "]"
+}
+
+type spyTransformer struct {
+	enter, exit func(cty.Path, cty.Value) (cty.Value, error)
+}
+
+func (t *spyTransformer) Enter(p cty.Path, v cty.Value) (cty.Value, error) { return t.enter(p, v) }
+func (t *spyTransformer) Exit(p cty.Path, v cty.Value) (cty.Value, error)  { return t.exit(p, v) }
+
+func doTransformer(v cty.Value, t cty.Transformer) (r cty.Value, err error, pan string) {
+	defer func() {
+		if x := recover(); x != nil {
+			pan = fmt.Sprint(x)
+		}
+	}()
+	r, err = cty.TransformWithTransformer(v, t)
+	return
+}
+
+// c19Transformer: with identity hooks the result is the value, Enter runs in Walk's pre-order
+// and Exit visits the same paths; an Enter hook that replaces one member by a value of ANOTHER
+// kind (leaf -> object, compound -> leaf, tuple -> list) makes the traversal continue inside the
+// replacement, the result holds the replacement there and every other member is undisturbed.
+func c19Transformer(u *U, v cty.Value, got []visit, shape, desc string) {
+	var enters, exits []string
+	id := &spyTransformer{
+		enter: func(p cty.Path, x cty.Value) (cty.Value, error) { enters = append(enters, pathStr(p)); return x, nil },
+		exit:  func(p cty.Path, x cty.Value) (cty.Value, error) { exits = append(exits, pathStr(p)); return x, nil },
+	}
+	u.Eval(1)
+	tv, terr, tpan := doTransformer(v, id)
+	if tpan != "" || terr != nil {
+		u.Violation("transformer.fails", shape, fmt.Sprintf("identity TransformWithTransformer(%s) failed: %v %s", desc, terr, firstLineOf(tpan)))
+		return
+	}
+	if !rawEq(tv, v) {
+		u.Violation("transformer.identity-differs", shape, fmt.Sprintf("identity TransformWithTransformer(%s) = %s", desc, goStr(tv)))
+	}
+	wpaths := make([]string, len(got))
+	for i, vis := range got {
+		wpaths[i] = pathStr(vis.path)
+	}
+	// Enter is pre-order and Exit post-order (Transformer doc comment); the order among
+	// siblings is not specified (objects and maps are iterated in map order)
+	sw := append([]string(nil), wpaths...)
+	se, sx := append([]string(nil), enters...), append([]string(nil), exits...)
+	sort.Strings(sw)
+	sort.Strings(se)
+	sort.Strings(sx)
+	if strings.Join(sw, "|") != strings.Join(se, "|") {
+		u.Violation("transformer.enter-paths", shape, fmt.Sprintf("Enter visited {%s}, Walk visited {%s} (value %s)", strings.Join(se, " "), strings.Join(sw, " "), desc))
+	}
+	if strings.Join(se, "|") != strings.Join(sx, "|") {
+		u.Violation("transformer.exit-paths", shape, fmt.Sprintf("Exit visited {%s}, Enter visited {%s} (value %s)", strings.Join(sx, " "), strings.Join(se, " "), desc))
+	}
+	byPath := map[string]cty.Path{}
+	for _, vis := range got {
+		byPath[pathStr(vis.path)] = vis.path
+	}
+	pos := func(seq []string) map[string]int {
+		m := map[string]int{}
+		for i, p := range seq {
+			if _, dup := m[p]; !dup {
+				m[p] = i
+			}
+		}
+		return m
+	}
+	pe, px := pos(enters), pos(exits)
+	for ps, p := range byPath {
+		if len(p) == 0 {
+			continue
+		}
+		parent := pathStr(p[:len(p)-1])
+		if a, ok := pe[ps]; ok {
+			if b, ok2 := pe[parent]; ok2 && b > a {
+				u.Violation("transformer.enter-order", shape, fmt.Sprintf("Enter visited %s before its parent %s (value %s)", ps, parent, desc))
+			}
+		}
+		if a, ok := px[ps]; ok {
+			if b, ok2 := px[parent]; ok2 && b < a {
+				u.Violation("transformer.exit-order", shape, fmt.Sprintf("Exit visited %s after its parent %s (value %s)", ps, parent, desc))
+			}
+		}
+	}
+	// kind-changing replacement in Enter, only where every ancestor is a tuple or an object
+	// (a collection's members must keep one type: replacing one of them by another type is the
+	// caller's error)
+	for _, vis := range got {
+		if pathThroughSet(v, vis.path) {
+			continue
+		}
+		structuralAncestors := true
+		for k := 0; k < len(vis.path); k++ {
+			anc, _, _ := applyPath(vis.path[:k], v)
+			au, _ := anc.Unmark()
+			if !(au.Type().IsTupleType() || au.Type().IsObjectType()) {
+				structuralAncestors = false
+			}
+		}
+		if !structuralAncestors {
+			continue
+		}
+		inner, _ := vis.val.Unmark()
+		var repls []cty.Value
+		leafRepl := cty.ObjectVal(map[string]cty.Value{"x": cty.StringVal("new"), "y": cty.ListVal([]cty.Value{cty.NumberIntVal(1), cty.NumberIntVal(2)})})
+		if ty := inner.Type(); ty.IsPrimitiveType() || ty == cty.DynamicPseudoType || ty.IsCapsuleType() {
+			repls = []cty.Value{leafRepl, cty.TupleVal([]cty.Value{cty.True})}
+		} else {
+			repls = []cty.Value{cty.StringVal("flat"), cty.ListVal([]cty.Value{cty.StringVal("q"), cty.StringVal("r")}), leafRepl}
+		}
+		target := pathStr(vis.path)
+		for _, repl := range repls {
+			var entered []string
+			tr := &spyTransformer{
+				enter: func(p cty.Path, x cty.Value) (cty.Value, error) {
+					entered = append(entered, pathStr(p))
+					if pathStr(p) == target {
+						return repl, nil
+					}
+					return x, nil
+				},
+				exit: func(p cty.Path, x cty.Value) (cty.Value, error) { return x, nil },
+			}
+			u.Eval(1)
+			rv, rerr, rpan := doTransformer(v, tr)
+			rdesc := fmt.Sprintf("TransformWithTransformer(%s) whose Enter replaces %s by %s", desc, target, goStr(repl))
+			if rpan != "" || rerr != nil {
+				u.Violation("transformer.replace-fails", shape, fmt.Sprintf("%s failed: %v %s", rdesc, rerr, firstLineOf(rpan)))
+				continue
+			}
+			after, werr, wpan := doWalk(rv)
+			if wpan != "" || werr != nil {
+				u.Violation("transformer.replace-fails", shape, fmt.Sprintf("Walk of the result of %s failed", rdesc))
+				continue
+			}
+			afterBy := map[string]cty.Value{}
+			for _, a := range after {
+				afterBy[pathStr(a.path)] = a.val
+			}
+			if nv, ok := afterBy[target]; !ok || !rawEq(nv, repl) {
+				u.Violation("transformer.replace-not-applied", shape, fmt.Sprintf("%s: the member there is %s", rdesc, goStr(nv)))
+			}
+			// the traversal continued inside the replacement
+			var inside []visit
+			refWalk(repl, append(cty.Path(nil), vis.path...), &inside)
+			enteredSet := map[string]bool{}
+			for _, e := range entered {
+				enteredSet[e] = true
+			}
+			for _, in := range inside {
+				if !enteredSet[pathStr(in.path)] {
+					u.Violation("transformer.replacement-not-traversed", shape, fmt.Sprintf("%s: Enter was never called for member %s of the replacement", rdesc, pathStr(in.path)))
+					break
+				}
+			}
+			for _, orig := range got {
+				ps := pathStr(orig.path)
+				if ps == target || strings.HasPrefix(ps, target) || strings.HasPrefix(target, ps) {
+					continue
+				}
+				if nv, ok := afterBy[ps]; !ok || !rawEq(nv, orig.val) {
+					u.Violation("transformer.replace-disturbs-other", shape, fmt.Sprintf("%s: member %s changed from %s to %s", rdesc, ps, goStr(orig.val), goStr(nv)))
+				}
+			}
+		}
+	}
 }
